@@ -110,7 +110,7 @@ def cases(draw):
     delta = st.sampled_from([-2, -1, 0, 1, 2, -1000 if not real else -1024, 1000 if not real else 1024, None])
     vals = G.tagged_values()
     step = G.steps(vals, allow_fail=False)
-    kind = draw(st.sampled_from(["child", "child", "parallel", "map", "nested", "handler_ok", "handler_err"]))
+    kind = draw(st.sampled_from(["child", "child", "parallel", "map", "nested", "handler_ok", "handler_err", "early", "op_err"]))
     body = []
     info = {}
     hb = None
@@ -144,6 +144,22 @@ def cases(draw):
         else:
             body = [{"op": "map", "items": [to_tagged(i) for i in range(n)], "body": [{"op": "step", "beh": {"kind": "big", "n": per}, "sem": "least", "retry": {"kind": "none"}}],
                      "cfg": {"completion": comp, "summary": summ, **({"item_serdes": "fragile"} if draw(st.integers(0, 2)) == 0 else {})}}]
+    elif kind == "early":
+        # decided by its first (oversized) result under a concurrency limit of 1: the other branches never start; the call
+        # is recorded with ReplayChildren and rebuilt from its children on replay
+        n = draw(st.integers(2, 4))
+        big = {"op": "step", "beh": {"kind": "big", "n": int(L * 1.3) if not real else int(L * 1.1), "ch": "e"}, "sem": "least", "retry": {"kind": "none"}}
+        small = {"op": "step", "beh": {"kind": "ret", "v": 1}, "sem": "least", "retry": {"kind": "none"}}
+        body = [{"op": "parallel", "branches": [[big]] + [[small] for _ in range(n - 1)],
+                 "cfg": {"max_concurrency": 1, "completion": {"min": 1, "tol": n, "pct": None}, "explicit": True}}]
+    elif kind == "op_err":
+        # the handler fails because a durable operation failed for good: its (SDK-typed) error with a message around
+        # the response limit leaves the handler
+        d = draw(delta)
+        n = max(1, (R * 2) if d is None else R + d)
+        body = [{"op": "step", "beh": {"kind": "always_fail", "err": "UserError", "msg": "E" * max(1, n - draw(st.sampled_from([0, 60, 90, 120])))}, "sem": "least", "retry": {"kind": "none"}}]
+        if draw(st.booleans()):
+            body = [{"op": "child", "body": body}]
     elif kind == "handler_ok":
         d = draw(delta)
         n = max(1, (R * 2) if d is None else R + d)
@@ -168,7 +184,7 @@ def cases(draw):
         hb = {"raise": {"cls": draw(st.sampled_from(["UserError", "ValueError"])), "size": max(1, n - draw(st.sampled_from([0, 60, 75, 90])))}}
         body = [draw(step)]
     tail = []
-    if kind not in ("handler_ok", "handler_err"):
+    if kind not in ("handler_ok", "handler_err", "op_err"):
         tail = [{"op": "wait", "secs": 1}]
         if draw(st.booleans()):
             tail.append(draw(step))
